@@ -16,12 +16,12 @@ def run_scenarios(ctx):
     for i in range(n):
         w = hist.World(ctx, i, random.Random(rng.randrange(1 << 30)), max_groups=rng.choice([1, 1, 2]), max_per_group=rng.choice([1, 2, 3]))
         forced = i == 1       # one storage where every later run rotates, removes the old group and has a reported (non-fatal) error
-        if forced:
+        if forced or i == 2:        # (storage 2: every later run rotates, would remove the old group, and has a failing flush)
             w.max_groups, w.max_per_group = 1, 1
         try:
             for k in range(rng.randint(1, 12 if i % 3 else 60)):
                 open(os.path.join(w.items[0], 'f%d' % k), 'wb').write(os.urandom(rng.choice([10, 5000, 200000])))
-            nruns = 3 if forced or i == 2 else rng.randint(1, 4)
+            nruns = 4 if i == 2 else 3 if forced else rng.randint(1, 4)
             for r in range(nruns):
                 if rng.random() < 0.3 and r > 0:
                     # an abandoned temporary in the newest group
@@ -32,7 +32,7 @@ def run_scenarios(ctx):
                 for _ in range(rng.randint(0, 3)):
                     w.edit()
                 t = os.path.join(w.base, 'trace-%d.txt' % r)
-                adv = hist.DAY if forced else rng.choice([5, hist.DAY])
+                adv = hist.DAY if forced or (i == 2 and r == 1) else 5 if i == 2 else rng.choice([5, hist.DAY])
                 env = {'TRACE': t, 'WATCH': w.root}
                 fault = None
                 flush_fault = i == 2      # one storage where every run has a failing flush, the directory flushes with EINVAL first
@@ -42,10 +42,14 @@ def run_scenarios(ctx):
                     grp_new = os.path.join(w.root, store.group_name(w.now + adv))
                     fault = rng.choice(['fsync@%s/data.tar.zst' % tmp, 'fsync@%s/metadata.zst' % tmp, 'fsyncdir@%s' % tmp, 'fsyncdir@%s' % os.path.dirname(tmp),
                                         'fsync@%s/.%s/data.tar.zst' % (grp_new, store.backup_name(w.now + adv)), 'fsyncdir@%s' % grp_new]) + '=' + rng.choice(['EIO', 'ENOSPC', 'EINVAL'])
-                    if flush_fault and r < 2:
-                        fault = ['fsyncdir@%s=EINVAL' % tmp, 'fsyncdir@%s=EINVAL' % os.path.dirname(tmp)][r]
-                    env['FAULT'] = fault
-                soft = (forced and r > 0) or rng.random() < 0.2
+                    if flush_fault and 1 <= r <= 2:
+                        tmp2 = os.path.join(grp_new, '.' + store.backup_name(w.now + adv))
+                        fault = ['fsyncdir@%s=EINVAL' % tmp2, 'fsyncdir@%s=EINVAL' % grp_new][r - 1]
+                    elif flush_fault:
+                        fault = None
+                    if fault:
+                        env['FAULT'] = fault
+                soft = (forced and r == 1) or (not forced and rng.random() < 0.2)      # (the forced storage's last run is clean: rotation + removal)
                 if soft:
                     # a configured item that does not exist: reported, exit status 1, and the backup is still made and published
                     w.items.append(os.path.join(w.base, 'no-such-item')); w.filters.append(None)
